@@ -67,6 +67,10 @@ func surrogates(r rune) (rune, rune) {
 	return 0xd800 + (r>>10)&0x3ff, 0xdc00 + r&0x3ff
 }
 
+// LoneSurrogates lets StringTok emit escapes of unpaired surrogates (switched on by the checks
+// whose reference decodes them the way the library does).
+var LoneSurrogates = false
+
 // StringTok draws a JSON string token and its decoded value.
 func StringTok(t *rapid.T, maxLen int, label string) (tok, decoded string) {
 	n := rapid.IntRange(0, maxLen).Draw(t, label+"Len")
@@ -82,6 +86,12 @@ func StringTok(t *rapid.T, maxLen int, label string) (tok, decoded string) {
 		mode := 0
 		if rapid.IntRange(0, 9).Draw(t, label+"Esc") < 3 {
 			mode = rapid.IntRange(1, 3).Draw(t, label+"Mode")
+		}
+		if LoneSurrogates && rapid.IntRange(0, 39).Draw(t, label+"Lone") == 0 {
+			// an escape of half a surrogate pair: lexically fine, decodes to U+FFFD; what follows it
+			// is part of the string like everything else
+			tb.WriteString(rapid.SampledFrom([]string{`\ud83d`, `\uDC00`, `\ud800`}).Draw(t, label+"LoneTok"))
+			db.WriteRune(utf8.RuneError)
 		}
 		tb.WriteString(SpellRune(r, mode))
 		db.WriteRune(r)
